@@ -244,6 +244,7 @@ class Interp:
         self.no_inline: set[str] = set()
         self.method_hooks: dict = {}  # (role, method name) -> handler(interp, elem, args, kwargs, node)
         self._carried: dict = {}
+        self._counters: dict = {}
         self._carried_containers: dict = {}
         self.path_count = 0
         self.stats = {"paths": 0, "functions": set(), "unresolved_calls": 0, "resolved_calls": 0, "loops": 0}
@@ -778,6 +779,21 @@ class Interp:
                 if len(d[0]) == 1 and d[1] == 0 and isinstance(d[0][0][0], tuple) and d[0][0][0][0] == "len":
                     return ("empty", d[0][0][0][1])
                 return ("cmp", "==", ("lin", d), ("c", 0))
+            # a length against a constant: lengths are ≥ 0, and "no element" has one key however it is written
+            if len(d[0]) == 1 and abs(d[0][0][1]) == 1 and isinstance(d[0][0][0], tuple) and d[0][0][0][0] == "len" and op in ("Lt", "LtE", "Gt", "GtE"):
+                coef, what = d[0][0][1], d[0][0][0][1]
+                rel, c0 = (op, -d[1]) if coef == 1 else ({"Lt": "Gt", "LtE": "GtE", "Gt": "Lt", "GtE": "LtE"}[op], d[1])  # len(x) rel c0
+                emp = ("empty", what)
+                if rel == "Lt":
+                    r = PFALSE if c0 <= 0 else (emp if c0 == 1 else None)
+                elif rel == "LtE":
+                    r = PFALSE if c0 < 0 else (emp if c0 == 0 else None)
+                elif rel == "Gt":
+                    r = PTRUE if c0 < 0 else (pred_not(emp) if c0 == 0 else None)
+                else:
+                    r = PTRUE if c0 <= 0 else (pred_not(emp) if c0 == 1 else None)
+                if r is not None:
+                    return r
             # canonicalise:  a < b  ->  ('cmp','<',lin(a-b),0) ; a > b -> not (a <= b) ...
             if op == "Lt":
                 return ("cmp", "<", ("lin", d), ("c", 0))
@@ -1365,6 +1381,11 @@ class Interp:
                 for name in self._carried.get(id(node), ()):
                     env = st.frames[-1].env
                     cur = env.get(name)
+                    if name in self._counters.get(id(node), ()) and self.as_lin(cur) is not None and not isinstance(cur, Sym) and not (isinstance(cur, Const) and isinstance(cur.value, bool)):
+                        # a counter stepped by one at the end of every iteration: its value at an element is the
+                        # entry value plus the position of the element
+                        env[name] = LinV(F.lin_add(F.lin_term(("pos", evar, fam)), self.as_lin(cur).lin))
+                        continue
                     if isinstance(cur, (Const, LinV, Sym, PredV)) and not (isinstance(cur, Const) and isinstance(cur.value, str)):
                         hint = "int" if isinstance(cur, LinV) or (isinstance(cur, Const) and isinstance(cur.value, int) and not isinstance(cur.value, bool)) else (cur.hint if isinstance(cur, Sym) else "")
                         env[name] = Sym(("carried", loop_id, name), hint)
@@ -1929,9 +1950,58 @@ class Interp:
             self.exec_block(node.body)
 
         self._carried[id(node)] = self.carried_names(node)
+        self._counters[id(node)] = self.unit_counters(node)
         broke = self.run_loop(node.target, it, body, node)
         if not broke and node.orelse:
             self.exec_block(node.orelse)
+
+    @staticmethod
+    def unit_counters(node):
+        """Names that the body of this ``for`` loop changes in exactly one place: a top-level ``n += 1`` / ``n = n + 1``,
+        with no ``continue`` of this loop anywhere (every iteration that goes on reaches the step)."""
+        def has_continue(stmts):
+            for st in stmts:
+                if isinstance(st, ast.Continue):
+                    return True
+                if isinstance(st, (ast.For, ast.While, ast.FunctionDef, ast.AsyncFunctionDef, ast.ClassDef)):
+                    if isinstance(st, (ast.For, ast.While)) and has_continue(st.orelse):
+                        return True
+                    continue
+                for fld in ("body", "orelse", "finalbody"):
+                    if has_continue(getattr(st, fld, []) or []):
+                        return True
+                for h in getattr(st, "handlers", []) or []:
+                    if has_continue(h.body):
+                        return True
+                for c in getattr(st, "cases", []) or []:
+                    if has_continue(c.body):
+                        return True
+            return False
+
+        if has_continue(node.body):
+            return frozenset()
+        steps = {}
+        for st in node.body:
+            nm = None
+            if isinstance(st, ast.AugAssign) and isinstance(st.op, ast.Add) and isinstance(st.target, ast.Name) and isinstance(st.value, ast.Constant) and st.value.value == 1 and not isinstance(st.value.value, bool):
+                nm = st.target.id
+            elif isinstance(st, ast.Assign) and len(st.targets) == 1 and isinstance(st.targets[0], ast.Name) and isinstance(st.value, ast.BinOp) and isinstance(st.value.op, ast.Add):
+                l, r = st.value.left, st.value.right
+                t = st.targets[0].id
+                one = lambda x: isinstance(x, ast.Constant) and x.value == 1 and not isinstance(x.value, bool)  # noqa: E731
+                if (isinstance(l, ast.Name) and l.id == t and one(r)) or (isinstance(r, ast.Name) and r.id == t and one(l)):
+                    nm = t
+            if nm:
+                steps[nm] = steps.get(nm, 0) + 1
+        out = set()
+        for nm, k in steps.items():
+            if k != 1:
+                continue
+            stores = [n for n in ast.walk(node) if isinstance(n, ast.Name) and n.id == nm and isinstance(n.ctx, (ast.Store, ast.Del))]
+            tgt = [n for n in ast.walk(node.target) if isinstance(n, ast.Name) and n.id == nm]
+            if len(stores) == 1 and not tgt:
+                out.add(nm)
+        return frozenset(out)
 
     def exec_While(self, node):
         """``while`` loops run once from a havocked head; the back edge ends the path."""
